@@ -283,15 +283,17 @@ def run_map_case(v, desc, scratch):
         points = rng.sample(first_last, min(6, len(first_last))) + rng.sample(points, 6)
     keys = []
     n = 0
+    m_it = -1
     for fname, eidx, term, k, tot in points:
         pos = "first" if k == 0 else ("last" if k == tot - 1 else "middle")
         for ei in desc["exc"][: 2]:
             spec = EXC[ei]
             modes = MAP_MODES if n % 3 == 0 else rng.sample(MAP_MODES, 3)
-            if n % 6 == 2:
+            m_it += 1
+            if m_it % 5 == 2:
                 # exception shapes with special behaviour: StopIteration (ends iterators silently; cannot cross asyncio futures, so
                 # sync entry points only) and a class whose constructor signature differs from its args (in-process only)
-                spec = [["StopIteration", "stop-msg"], ["Ctor", "x", "must not be negative"]][(n // 6) % 2]
+                spec = [["StopIteration", "stop-msg"], ["Ctor", "x", "must not be negative"]][(m_it // 5) % 2]
                 modes = ["seq", "thread", "controlled"] + (["process", "default-pool"] if spec[0] == "StopIteration" else [])
                 v.count(f"special_exception_shapes:{spec[0]}")
             for mode in modes:
